@@ -199,6 +199,11 @@ def check_c03(prog, rep, tier, cfg):
     # C03.i — the reflow starts where the first pass started
     layout.reflow_root_is_first_pass_root(prog, rep, "C03.i")
     layout.check_c09(prog, AliasReport(rep, [("C09.d", r".", "C03.d")]), tier, cfg)
+    # C03.k — what is kept verbatim is a fixpoint only if it is copied, not re-normalised: in front of an ignored token the emission step
+    # writes the original whitespace as it is (shared with C07.c) — a rewrite of its line breaks that is not idempotent (`split('\n')`
+    # + join with CRLF keeps the old CR) grows on every run
+    import text as _text3
+    _text3.check_c07(prog, AliasReport(rep, [("C07.c", r".", "C03.k")]), tier, cfg)
     # C03.f — measurements memoised by the first wrapping pass do not outlive the text they were taken from (shared with C11.d; 1 known finding)
     layout.check_c11(prog, AliasReport(rep, [("C11.d", r".", "C03.f")]), tier, cfg)
     # C03.e — the surviving layout fact is a projection
